@@ -38,7 +38,7 @@ class Job:
                  extra_cbmc=(), tier="T1", bounds="", model="", timeout=600,
                  mem_gb=12, expect=(), tiers=("quick", "thorough"), replay=None,
                  trusted=(), functions=(), statement="", nobody_ok=(),
-                 carries=None, object_bits=None, post_unwindset=None, cbmc_unwind=None,
+                 carries=None, object_bits=None, post_unwindset=None, pre_unwind=None,
                  known=None):
         self.name = name
         self.props = list(props)
@@ -53,7 +53,7 @@ class Job:
         self.unwindset = dict(unwindset or {})
         self.post_unwindset = dict(post_unwindset or {})
         self.unwind = unwind
-        self.cbmc_unwind = cbmc_unwind
+        self.pre_unwind = pre_unwind
         self.defines = list(defines)
         self.checks = DEFAULT_CHECKS if checks is None else list(checks)
         self.extra_cbmc = list(extra_cbmc)
@@ -144,7 +144,8 @@ def build(job, work, log, spec_blocks):
         else:
             inject.inject(REPO, rel, [], [], out_c)
         gb = out_c + ".gb"
-        rc, out, dt = run(["goto-cc", "-c"] + COMMON_CC + defs + inc + [out_c, "-o", gb],
+        tu = ["-DVERIF_TU_" + re.sub(r"\W", "_", os.path.basename(rel)[:-2])]
+        rc, out, dt = run(["goto-cc", "-c"] + COMMON_CC + defs + tu + inc + [out_c, "-o", gb],
                           300, 8, log)
         log.write(out)
         if rc != 0:
@@ -183,12 +184,12 @@ def build(job, work, log, spec_blocks):
         if rc != 0:
             raise BuildError("unwindset failed:\n" + out[-2000:])
         cur = nxt
-    elif job.unwind is not None and not job.apply_loops:
+    elif job.pre_unwind is not None and not job.apply_loops:
         # no loop contracts in this job: unwind every loop (library models,
         # literal-bounded loops, harness loops) BEFORE dfcc, so that dfcc's own
         # write-set loops keep the bounds dfcc gives them
         nxt = os.path.join(work, "c.gb")
-        rc, out, dt = run(["goto-instrument", NMF, "--unwind", str(job.unwind),
+        rc, out, dt = run(["goto-instrument", NMF, "--unwind", str(job.pre_unwind),
                            "--unwinding-assertions", cur, nxt], 300, 8, log)
         log.write(out)
         if rc != 0:
@@ -219,10 +220,8 @@ class BuildError(Exception):
 
 def cbmc_cmd(job, gb, trace_prop=None):
     cmd = ["cbmc", NMF] + job.checks + job.extra_cbmc
-    if job.unwind is not None and (job.apply_loops or job.unwindset) and job.cbmc_unwind is None:
-        pass
-    if job.cbmc_unwind is not None:
-        cmd += ["--unwind", str(job.cbmc_unwind), "--unwinding-assertions"]
+    if job.unwind is not None:
+        cmd += ["--unwind", str(job.unwind), "--unwinding-assertions"]
     if job.post_unwindset:
         cmd += ["--unwindset", ",".join("%s:%d" % kv for kv in job.post_unwindset.items()),
                 "--unwinding-assertions"]
